@@ -20,13 +20,27 @@ def facts : DebugLoopFacts :=
     overCmp := ">",
     outCmp := ">=",
     noPosSkips := true,
-    depthOps := ["enterCall:f.debug.g.fDepth++", "enterCall:f.debug.g.fDepth++", "exitCall:f.debug.g.fDepth--"] }
+    depthOps := ["enterCall:f.debug.g.fDepth++", "enterCall:f.debug.g.fDepth++", "exitCall:f.debug.g.fDepth--"],
+    -- 0a3a691 (F19-2 … F19-7): a marked node is reported when the frame enters its line (or it carries a
+    -- function breakpoint); dbg.exec records the previous step of the frame
+    breakCond := "marked-entering-line",
+    prevUpdate := true,
+    -- 0a3a691: SetBreakpoints marks every step (isStep) of a requested line that is in cfgNodes(root); no getExec
+    placement := "reachable-steps",
+    stepKinds := ["breakStmt", "continueStmt", "fallthroughStmt", "gotoStmt"],
+    cfgKinds := ["funcType", "constDecl", "varDecl"] }
+
+/-- the facts before 0a3a691 (first candidate in walk order, reported whenever it is about to run),
+    kept for the examples that reproduce F19-3 … F19-7 -/
+def factsBeforeLineRepair : DebugLoopFacts :=
+  { facts with breakCond := "marked", prevUpdate := false, placement := "first-candidate",
+               stepKinds := ["absent"], cfgKinds := ["absent"] }
 
 /-- the facts of the unchanged code (before d1e6c4c and 3d77a98), kept for the regression examples
     that reproduce the old behaviour on the old findings -/
 def factsBeforeRepair : DebugLoopFacts :=
-  { facts with execCmp := "code-pointer", acceptsForward := false, origCmp := "code-pointer",
-               backEdge := "forward-unrecorded" }
+  { factsBeforeLineRepair with execCmp := "code-pointer", acceptsForward := false, origCmp := "code-pointer",
+                                backEdge := "forward-unrecorded" }
 
 /-- fingerprints (extract/common FuncHash) of the functions Model/Debug.lean was transcribed from -/
 def sourceHashes : List (String × String) :=
@@ -34,15 +48,18 @@ def sourceHashes : List (String × String) :=
    ("isExecNode", "62763c4a3e03f829"),        -- d1e6c4c, 3d77a98
    ("execID", "ac745be092c64f54"),            -- new in d1e6c4c
    ("originalExecNode", "1dff6d29dda42e0e"),  -- d1e6c4c
-   ("Debugger.exec", "9855b3f1a0ee5129"),
+   ("Debugger.exec", "95ec0ed0fbeebf5c"),            -- 0a3a691: prev update, break case "entering the line"
    ("Debugger.enterCall", "b9d164a29c4570d0"),
    ("Debugger.exitCall", "4c15dd1fb1de22c0"),
-   ("Debugger.SetBreakpoints", "bdce5c0acd96e772"),
+   ("Debugger.SetBreakpoints", "fbd3cbee2813e8f0"),  -- 0a3a691: every reachable step of the line, no getExec
    ("debugRoutine.setMode", "dad094ff423204f1"),
    ("Debugger.Continue", "0e7ce5df151e82c7"),
    ("Debugger.Step", "4160ff86eb6be6b8"),
    ("Debugger.Terminate", "d8f0a180fa0c7538"),
    ("Interpreter.Debug", "4c42b5fbe85f52d2"),
+   ("Debugger.entersLine", "e13b195631b7ac53"),      -- new in 0a3a691
+   ("cfgNodes", "cb180ba0e7f8d864"),                 -- new in 0a3a691
+   ("node.isStep", "572781247e9d2216"),              -- new in 0a3a691
    ("node.shouldBreak", "f6159ed7d1a5acae"),
    ("node.setBreakOnLine", "f42e739c506063d0"),
    ("node.setBreakOnCall", "0b55432840c1b558"),
